@@ -2,6 +2,7 @@
   EG.Driver.Rect — model side of the `rect.*` correspondence streams (harness/src/m_rect.rs).
 -/
 import EG.Driver.Util
+import EG.Driver.Line
 namespace EG.Driver
 open EG
 
@@ -34,6 +35,9 @@ def handleRect (stream : String) (t : Toks) : Option String :=
       let y1 := y0 + r.size.h
       let bits := [y0 - 1, y0, y1 - 1, y1].flatMap (fun y => [x0 - 1, x0, x1 - 1, x1].map (fun x => r.contains ⟨x, y⟩))
       some s!"{head} in16={fmtBits bits}"
+  | "rect.pts" =>
+    let (r, _) := t.rect
+    some (fmtPtsDigest r.points)
   | "rect.resize" =>
     let (r, t) := t.rect
     let (ns, t) := t.sz
